@@ -10,7 +10,8 @@ import json, re
 import vlib
 
 GROUP = 'search'
-TRUSTED = ['Python 3 `re` on translated patterns (subset: literals, ^ $ \\< \\> . classes x*) as the independent reference of the failing-input search']
+TRUSTED = ['Python 3 `re` on translated patterns (subset: literals, ^ $ \\< \\> . classes x*) as the independent reference of the failing-input search',
+           'tools/c2clite.py + clang -ast-dump=json (syntax printer of the translated mot.c lbuf_search and its callees in uc.c, lbuf.c, rstr.c) and the C semantics fixed in coq/CLite.v (x86-64 integer sizes, left-to-right evaluation, conversions wrap, a local array as a block allocated on entry); the matcher behind rstr_find is an oracle described by a function (TrSearch.find_ans)']
 
 MARK = '#%#'
 W = '0-9A-Za-z_\x80-\U0010ffff'
